@@ -198,6 +198,35 @@ func uniqueStore(a *ssa.Alloc) ssa.Value {
 	return st.Val
 }
 
+// closureOnlyLoads: every free variable of the closure bound to a is only loaded inside it.
+func closureOnlyLoads(mc *ssa.MakeClosure, a *ssa.Alloc) bool {
+	cf, ok := mc.Fn.(*ssa.Function)
+	if !ok {
+		return false
+	}
+	for i, bnd := range mc.Bindings {
+		if bnd != ssa.Value(a) || i >= len(cf.FreeVars) {
+			continue
+		}
+		refs := cf.FreeVars[i].Referrers()
+		if refs == nil {
+			continue
+		}
+		for _, r2 := range *refs {
+			switch y := r2.(type) {
+			case *ssa.UnOp:
+				if y.Op != token.MUL {
+					return false
+				}
+			case *ssa.DebugRef:
+			default:
+				return false
+			}
+		}
+	}
+	return true
+}
+
 // paramSpill recognises the alloc into which go/ssa spills a parameter whose
 // address is taken (value receivers, captured parameters): the only whole
 // store into it is the parameter itself, in the entry block.
@@ -636,6 +665,14 @@ func (d *Describer) desc1(v ssa.Value, depth int) string {
 			if a, ok := v.X.(*ssa.Alloc); ok {
 				if sv := uniqueStore(a); sv != nil {
 					return r(sv)
+				}
+			}
+			// a variable captured by this function literal that is written exactly once, before the literal
+			// is made, and that no closure writes: the value stored (a per-iteration loop variable handed
+			// to a goroutine by capture instead of as an argument)
+			if fv, ok := v.X.(*ssa.FreeVar); ok {
+				if sv := capturedOnce(fv); sv != nil {
+					return "^" + r(sv)
 				}
 			}
 			// a field of an unexported package-level struct variable that is only ever initialised
@@ -1131,4 +1168,106 @@ func onTheSpotArg(v *ssa.Parameter) ssa.Value {
 		}
 	}
 	return call.Call.Args[idx]
+}
+
+// capturedOnce: fv is bound to a local of the enclosing function that is stored exactly once there — in a block
+// that dominates the closure's creation — and otherwise only loaded or captured by closures that only load it.
+func capturedOnce(fv *ssa.FreeVar) ssa.Value {
+	fn := fv.Parent()
+	par := fn.Parent()
+	if par == nil {
+		return nil
+	}
+	idx := -1
+	for i, x := range fn.FreeVars {
+		if x == fv {
+			idx = i
+		}
+	}
+	if idx < 0 {
+		return nil
+	}
+	var mk *ssa.MakeClosure
+	for _, b := range par.Blocks {
+		for _, in := range b.Instrs {
+			if mc, ok := in.(*ssa.MakeClosure); ok && mc.Fn == ssa.Value(fn) {
+				if mk != nil {
+					return nil
+				}
+				mk = mc
+			}
+		}
+	}
+	if mk == nil || idx >= len(mk.Bindings) {
+		return nil
+	}
+	a, ok := mk.Bindings[idx].(*ssa.Alloc)
+	if !ok || a.Parent() != par {
+		return nil
+	}
+	// only a variable that is created anew in every iteration of a loop (the per-iteration loop variable,
+	// or a copy made in the body): a variable of the function's own frame keeps its cell rendering
+	if !cycleBlocks(par)[a.Block()] {
+		return nil
+	}
+	var st *ssa.Store
+	for _, ref := range *a.Referrers() {
+		switch x := ref.(type) {
+		case *ssa.Store:
+			if x.Addr != ssa.Value(a) || st != nil {
+				return nil
+			}
+			st = x
+		case *ssa.UnOp:
+			if x.Op != token.MUL {
+				return nil
+			}
+		case *ssa.DebugRef:
+		case *ssa.MakeClosure:
+			// every closure that captures it may only load it
+			cf, ok := x.Fn.(*ssa.Function)
+			if !ok {
+				return nil
+			}
+			for i, bnd := range x.Bindings {
+				if bnd != ssa.Value(a) || i >= len(cf.FreeVars) {
+					continue
+				}
+				refs := cf.FreeVars[i].Referrers()
+				if refs == nil {
+					continue
+				}
+				for _, r2 := range *refs {
+					switch y := r2.(type) {
+					case *ssa.UnOp:
+						if y.Op != token.MUL {
+							return nil
+						}
+					case *ssa.DebugRef:
+					default:
+						return nil
+					}
+				}
+			}
+		default:
+			return nil
+		}
+	}
+	if st == nil {
+		return nil
+	}
+	// the store comes before the closure is made
+	if st.Block() == mk.Block() {
+		for _, in := range st.Block().Instrs {
+			if in == ssa.Instruction(st) {
+				break
+			}
+			if in == ssa.Instruction(mk) {
+				return nil
+			}
+		}
+	} else if !st.Block().Dominates(mk.Block()) {
+		return nil
+	}
+	return st.Val
 }
